@@ -106,6 +106,9 @@ func Events(d *adoc.Doc) []Event {
 			}
 			for _, dc := range n.Decls {
 				evs = append(evs, Event{K: EvNS, Local: dc.Prefix, Value: dc.URI})
+				if d.RepeatDecls {
+					evs = append(evs, Event{K: EvNS, Local: dc.Prefix, Value: dc.URI})
+				}
 			}
 			for _, a := range n.Attrs {
 				evs = append(evs, Event{K: EvAttr, Space: a.Space, Local: a.Local, Value: a.Value})
